@@ -9,7 +9,9 @@ Round-trip equality is behavioural and NOT decided. Claimed, as necessary struct
          the checked constructor and returns it.
 """
 from cao.facts import (AnchorMissing, callee_names, short, hir_walk, hir_callee, hir_strip, hir_local_id, pat_bindings, pat_variants)
-from cao.rules import Rule, ok, bad, undecided, note
+from cao.rules import Rule, ok, bad, undecided, note, shared
+import rules.c12 as _c12
+import rules.c13 as _c13
 from cao import hirutil as hu
 
 EXPLANATION = (
@@ -156,4 +158,6 @@ def rule_m(F):
 RULES = [
     Rule("C11.S", rule_s, 30, "derived Serialize impls write every field (Card.id excepted)", configs=("default", "release")),
     Rule("C11.M", rule_m, 4, "hand-written map impls are symmetric", configs=("default", "release")),
+    Rule("C11.K", shared(_c13.rule_k, "C13.K", "C11.K"), 2, "decoded HandleTables keep a free slot (shared with C13.K)", configs=("default", "release")),
+    Rule("C11.L", shared(_c12.rule_k, "C12.K", "C11.L"), 2, "decoded CaoHashMaps keep a free slot (shared with C12.K)", configs=("default", "release")),
 ]
